@@ -1,5 +1,6 @@
 (* Props/C10.v — property C10: append merges timing, scaling and properties by the documented rules only. *)
 From Coq Require Import ZArith List.
+Import ListNotations.
 From NV Require Import Common.Py Spec.TimingSpec Model.Timing Model.Waveform Proofs.WfmProofs Proofs.WfmProofs2 Proofs.C10Complete Proofs.C10Irregular.
 Open Scope Z_scope.
 
@@ -78,3 +79,22 @@ Theorem C10_irregular_append_not_monotonic : forall o srcs a,
   append_waveforms o srcs = Raise ValueError.
 Proof. exact append_waveforms_irregular_reject. Qed.
 Print Assumptions C10_irregular_append_not_monotonic.
+
+(* non-vacuity: an IRREGULAR receiver and two IRREGULAR sources meeting the hypotheses above, the result they force,
+   and a source whose timestamp would break monotonicity *)
+Definition irr (l : list Z) : timing := {| t_mode := 2; t_ts := None; t_off := None; t_si := None; t_tss := Some l |}.
+Definition mkobj (rows : list (list Z)) (t : timing) : obj :=
+  {| o_kind := KAnalog; o_dtype := 0; o_rows := rows; o_ncols := 1; o_start := 0; o_count := length rows; o_resizable := true;
+     o_timing := t; o_scale := 0; o_props := [] |}.
+Example C10_irregular_witness :
+  let o := mkobj [[5]; [6]] (irr [10; 20]) in
+  let srcs := [mkobj [[7]] (irr [20]); mkobj [[8]; [9]] (irr [30; 31])] in
+  Forall (src_compatible o) srcs /\ Forall irregular_src srcs /\ monotone ([10; 20] ++ flat_map stss srcs) = true /\
+  (exists o', append_waveforms o srcs = Ok (o', []) /\ t_tss (o_timing o') = Some [10; 20; 20; 30; 31] /\ view o' = [[5]; [6]; [7]; [8]; [9]]) /\
+  append_waveforms o [mkobj [[7]] (irr [15])] = Raise ValueError.
+Proof.
+  cbv zeta. repeat split.
+  - repeat constructor; intro; discriminate.
+  - repeat constructor; eexists; reflexivity.
+  - eexists. split; [vm_compute; reflexivity|]. split; reflexivity.
+Qed.
